@@ -17,6 +17,7 @@ CASES = [
     ("h/a/*/>/*", "h/a/", "/v2/g", "h/a/x/v1/m;h/a/x/v2/g;h/a/x/v1/b", "@/H/A/x/v3/O/y_v3.g", "/H/A/x/v3/x_v3.", "Q"),
     ("h/a/*", "h/a/", "", "h/a/x/v1/m", "@/H/A/.x.data.json;@/H/A/x/.v1.data.json", "/H/A/.", ".data.json"),
     ("h/a/x,*", "h/a/", "", "h/a/x;h/a/y/v1", "@/H/A/x/vv", "/H/A/x/v1/x_v1.", "QQ"),
+    ("h/s/q1/v1/a,m", "h/s/q1/v1/", "", "h/s/q1/v1/m;h/s/q1/v1/c", "@/H/S/q1/v1/E/q1_v2.c", "", ""),      # the first typed search (s__o: 'a' is no extension) has no path template, the others have
     ("h/a/x.y/*", "h/a/x", "y/v1", "h/a/x.y/v1;h/a/x_y/v2;h/a/x.y", "@/H/A/x.y/vv", "", ""),      # a regex metacharacter in a literal value: the list search must not treat it as one
 ]
 ALL_CASES = [("h/*/*", "h/a/", "", "h/s/q1"), ("h/*", "h/a/", "", ""), ("*", "h/a/", "", ""), ("h/a/*/*", "h/a/", "/v1", "h/a/x/v2"), ("h/s,a", "h/a/", "", ""), ("*/a,s", "h/a/", "", ""), ("*/*", "h/a/", "", ""), ("*/s,a/*", "h/a/", "", "h/s/q1")]
